@@ -42,6 +42,11 @@ type c43Case struct {
 	Port     uint16  `json:"port"`
 	Joins    int     `json:"joins"`  // players logged in before the status connection
 	Leaves   int     `json:"leaves"` // of those, players that disconnected again before the request
+	// LateJoins / LateLeaves: players that log in / leave AFTER the status
+	// connection's handshake was processed and before its first status frame is
+	// sent: the count in the response is the count when the request is served.
+	LateJoins  int `json:"late_joins,omitempty"`
+	LateLeaves int `json:"late_leaves,omitempty"`
 	Ops      []c43Op `json:"ops"`
 }
 
@@ -131,6 +136,40 @@ func c43RunInner(c c43Case) (res verifkit.Result) {
 	all = append(all, cl)
 	if err := cl.Send(c43Handshake(c.Protocol, c.Host, c.Port, 1)); err != nil {
 		return verifkit.Fail("status:closed-on-handshake", "handshake(protocol=%d,next=status) write failed: %v", c.Protocol, err)
+	}
+
+	if c.LateJoins > 0 || c.LateLeaves > 0 {
+		// The status handshake was written before these logins start; each login is a
+		// full round trip, so the proxy has normally handled the handshake by the time
+		// the first late player is registered. No verdict depends on that order: the
+		// response must carry the count at the time the request is served either way.
+		for i := 0; i < c.LateJoins; i++ {
+			h := c43Dial(p)
+			all = append(all, h)
+			holders = append(holders, h)
+			var id [16]byte
+			id[14], id[15] = 1, byte(i+1)
+			if err := h.Send(c43Handshake(c43HolderProtocol, "localhost", 25565, 2)); err != nil {
+				return verifkit.Fail("harness:holder-login", "late holder %d: handshake write failed: %v", i, err)
+			}
+			if err := h.Send(c43LoginStart(c43HolderProtocol, fmt.Sprintf("Late_%d", i), id)); err != nil {
+				return verifkit.Fail("harness:holder-login", "late holder %d: login start write failed: %v", i, err)
+			}
+			frames, _ := h.AwaitPlainFrames(1)
+			if len(frames) < 1 || len(frames[0]) == 0 || frames[0][0] != 0x02 {
+				return verifkit.Fail("harness:holder-login", "late holder %d: expected LoginSuccess, got frames %x", i, frames)
+			}
+			online++
+		}
+		for i := 0; i < c.LateLeaves; i++ {
+			// leave one of the players that are still online (the last ones first)
+			k := len(holders) - 1 - i
+			if k < c.Leaves || k < 0 {
+				break
+			}
+			holders[k].Finish()
+			online--
+		}
 	}
 
 	supported := c43IsSupported(c.Protocol)
@@ -471,6 +510,10 @@ func c43Gen(t *rapid.T) c43Case {
 	}
 	c.Joins = rapid.SampledFrom([]int{0, 1, 2, 3, 5}).Draw(t, "joins")
 	c.Leaves = rapid.IntRange(0, c.Joins).Draw(t, "leaves")
+	if rapid.IntRange(0, 3).Draw(t, "late") == 0 {
+		c.LateJoins = rapid.IntRange(0, 2).Draw(t, "lateJoins")
+		c.LateLeaves = rapid.IntRange(0, c.Joins-c.Leaves+c.LateJoins).Draw(t, "lateLeaves")
+	}
 	shape := rapid.IntRange(0, 9).Draw(t, "shape")
 	switch {
 	case shape <= 2: // request -> ping, optionally followed by anything
